@@ -526,6 +526,13 @@ PB(n, s, c) ==
                     ELSE Then(SReadAll(g.s, g.c), LAMBDA d :
                          IF Len(d.v.b) % g.v # 0 THEN RErr("RotationError", d.s, d.c, <<>>)
                          ELSE LET r == P(n.sub, Mem(RotLData(d.v.b, am.v, g.v), 0, 0), d.c) IN [r EXCEPT !.s = d.s])))
+      [] n.k = "Compressed" ->
+            \* the codec is an uninterpreted inverse pair; its graph on the explored data comes from the standard library
+            Then(SReadAll(s, c), LAMBDA d :
+                LET x == LookupLast(n.dk, n.dv, d.v) IN
+                IF ~x.ok THEN RErr(OutOfModel, d.s, d.c, <<>>)
+                ELSE IF x.v.t # "bytes" THEN RErr("CodecError", d.s, d.c, <<>>)          \* the codec rejects the data (foreign exception)
+                ELSE LET r == P(n.sub, Mem(x.v.b, 0, 0), d.c) IN [r EXCEPT !.s = d.s])
       [] n.k = "Checksum" ->
             Then(P(n.field, s, c), LAMBDA h1 :
                 Then(EvalR(n.over, h1.s, h1.c), LAMBDA data :
@@ -952,6 +959,12 @@ BB(n, obj, s, c) ==
                 LET h2 == LookupLast(n.hk, n.hv, data.v) IN
                 IF ~h2.ok THEN RErr(OutOfModel, data.s, data.c, <<>>)
                 ELSE Then(B(n.field, h2.v, data.s, data.c), LAMBDA r : ROk(h2.v, r.s, r.c, <<>>)))
+      [] n.k = "Compressed" ->
+            LET r == B(n.sub, obj, Fresh, c) IN
+            IF ~r.ok THEN [r EXCEPT !.s = s]
+            ELSE LET x == LookupLast(n.ek, n.ev, VBytes(r.s.data)) IN
+                 IF ~x.ok THEN RErr(OutOfModel, s, r.c, r.ev)
+                 ELSE [ Then(SWrite(s, r.c, x.v, Len(x.v.b)), LAMBDA w : ROk(obj, w.s, w.c, <<>>)) EXCEPT !.ev = r.ev \o @ ]
       [] n.k = "ExprValidator" ->
             LET inside == PyIn(obj, n.vals)
                 good == IF n.mode = "oneof" THEN inside ELSE ~inside
